@@ -524,6 +524,24 @@ def gen_compressed(rng):
             con("fanc", [nlead - 1] + gax + [nlead + k], comp=True)
         if rng.random() < 0.4:
             con("aux", gax if rng.random() < 0.6 else [rng.choice(gax)])   # not compressed
+        # gathered constructs with a list variable of their own over the same dimensions: equal to the data's list
+        # (one shared variable), different with the same length, different with another length
+        used_names = {nm.get("list")}
+        for c in cons:
+            if c.get("comp") and rng.random() < 0.4:
+                r = rng.random()
+                if r < 0.25:
+                    c["list"] = list(lst)
+                elif r < 0.6:
+                    c["list"] = sorted(rng.sample(range(tot), nl))
+                else:
+                    c["list"] = sorted(rng.sample(range(tot), rng.randint(1, tot)))
+                if origin == "file" or rng.random() < 0.5:
+                    free = [x for x in ("lp1", "lp2", "lp3", "pts") if x not in used_names]
+                    c["list_name"] = rng.choice(free)
+                    used_names.add(c["list_name"])
+        if any(c.get("list") is not None for c in cons) and rng.random() < 0.3:
+            cs["data_plain"] = True       # only metadata constructs are compressed
     else:
         ninst = rng.choice([1, 2, 3, 4])
         if rng.random() < 0.25:
@@ -826,6 +844,13 @@ def expected_findings(spec, opts):
             if any(c.get("bounds") and not c.get("climatology") and c["axes"] == [a] for c in cons):
                 out.append("where-over-cell-method-taken-as-climatology")
                 break
+    # _write_bounds asked every construct with bounds on a climatological time axis for is_climatology(): a domain
+    # ancillary has no such method (AttributeError; repaired by C01-fix4-2)
+    clim1 = {c["axes"][0] for c in cons if c.get("climatology") and len(c["axes"]) == 1}
+    clim1 |= {cm["axes"][0] for cm in spec["cms"] if ("over" in cm["quals"] or "within" in cm["quals"])
+              and len(cm["axes"]) == 1 and isinstance(cm["axes"][0], int)}
+    if any(c["type"] == "danc" and c.get("bounds") and len(c["axes"]) == 1 and c["axes"][0] in clim1 for c in cons):
+        out.insert(0, "bounds-of-a-domain-ancillary-on-a-climatological-axis-raise")
     if opts.get("fmt") == "NETCDF4_CLASSIC" and "_FillValue" in spec["props"]:
         out.append("netcdf4-classic-fill-value-after-data")
     if any(c.get("nodata") and not c["axes"] for c in cons):
@@ -974,6 +999,8 @@ SIG_SYMPTOMS = {
 
 # classes repaired by handoff/C01-fix2-*.diff (status fixed-pending): not expected to manifest on the repaired tree
 FIXED = {
+    "bounds-of-a-domain-ancillary-on-a-climatological-axis-raise",   # C01-fix4-2
+    "gathered-items-with-different-list-variables",                # C01-fix4-1
     "grouped:cell-methods-naming-an-axis-twice-misread",           # C01-fix3-5
     "endian-big-read-back-dtype-not-equal",                        # C01-fix2-4
     "bounds-property-inherited-from-parent-dropped",               # C01-fix2-5, -7
@@ -1182,6 +1209,13 @@ def oracle(chk, cases, rows, stats):
             continue
         exp = expected_findings(c["spec"], dict(c["options"], read=c.get("read"))) if "spec" in c else (
             ["endian-big-read-back-dtype-not-equal"] if c["options"].get("endian") == "big" else [])
+        if "cs" in c and c["cs"]["ckind"] == "gathered":
+            lists = {tuple(x["list"]) if x.get("list") is not None else tuple(c["cs"]["list"])
+                     for x in c["cs"]["cons"] if x.get("comp")}
+            if not c["cs"].get("data_plain"):
+                lists.add(tuple(c["cs"]["list"]))
+            if len(lists) > 1:
+                exp.append("gathered-items-with-different-list-variables")        # repaired by C01-fix4-1
         if "cs" in c and c["cs"]["ckind"] == "indexed" and c["cs"]["origin"] == "api" and (c["cs"].get("names") or {}).get("sample"):
             exp.append("index-variable-sample-dimension-name")                 # repaired by C01-fix3-1
         if "example" in c and c["example"] in (3, 4, 7) and c["options"].get("fmt") == "NETCDF4_CLASSIC":
